@@ -16,6 +16,8 @@ pub enum LOp {
     Prepare { reply: Option<(u32, usize)> },
     Execute { id: u32, vals: Vec<u32> },
     LongData { id: u32, param: u16, data: Vec<u8> },
+    /// long data of `len` pattern bytes (kept symbolic)
+    LongPat { id: u32, param: u16, seed: u32, len: usize },
     Close { id: u32 },
     Ping,
 }
@@ -72,7 +74,13 @@ fn model(ops: &[LOp]) -> ModelOut {
                 }
                 pending.retain(|(s, _), _| s != id);
             }
-            LOp::LongData { id, param, data } => {
+            LOp::LongData { .. } | LOp::LongPat { .. } => {
+                let (id, param, data) = match op {
+                    LOp::LongData { id, param, data } => (id, param, data.clone()),
+                    LOp::LongPat { id, param, seed, len } => (id, param, crate::gen::pattern(*seed, *len)),
+                    _ => unreachable!(),
+                };
+                let data = &data;
                 if live.contains_key(id) {
                     pending.entry((*id, *param)).or_default().extend_from_slice(data);
                 } else {
@@ -140,6 +148,12 @@ fn to_conv(ops: &[LOp]) -> Conversation {
                     pending.insert((*id, *param));
                 }
                 cmds.push(Cmd::LongData { id: *id, param: *param, data: Blob::Lit(data.clone()) })
+            }
+            LOp::LongPat { id, param, seed, len } => {
+                if live.contains_key(id) {
+                    pending.insert((*id, *param));
+                }
+                cmds.push(Cmd::LongData { id: *id, param: *param, data: Blob::Lit(crate::gen::pattern(*seed, *len)) })
             }
             LOp::Execute { id, vals } => {
                 let n = live.get(id).copied().unwrap_or(vals.len());
@@ -264,7 +278,29 @@ impl Prop for C10 {
         ops.push(LOp::Close { id: 16_383 });
         ops.push(LOp::Prepare { reply: Some((n + 1, 2)) });
         ops.push(LOp::Execute { id: n + 1, vals: vec![5, 6] });
-        vec![Case { ops }]
+        // "usable between the PREPARE reply and CLOSE", whatever the connection did before: long
+        // data that clients streamed and then abandoned (by closing the statement, or because the
+        // shim handed the id out again) - more of it in total than the 64 MiB the server advertises
+        // as max_allowed_packet - must not count against later statements
+        let mut abandon = Vec::new();
+        for r in 0..70u32 {
+            if r % 2 == 0 {
+                abandon.push(LOp::Prepare { reply: Some((100 + r, 1)) });
+                abandon.push(LOp::LongPat { id: 100 + r, param: 0, seed: r, len: (1 << 20) + r as usize });
+                abandon.push(LOp::Close { id: 100 + r });
+            } else {
+                abandon.push(LOp::Prepare { reply: Some((7, 1)) });
+                abandon.push(LOp::LongPat { id: 7, param: 0, seed: r, len: (1 << 20) - r as usize });
+            }
+        }
+        abandon.push(LOp::Prepare { reply: Some((1000, 2)) });
+        abandon.push(LOp::LongData { id: 1000, param: 1, data: b"hello".to_vec() });
+        abandon.push(LOp::Execute { id: 1000, vals: vec![1, 2] });
+        abandon.push(LOp::Prepare { reply: Some((7, 1)) });
+        abandon.push(LOp::LongData { id: 7, param: 0, data: b"x".to_vec() });
+        abandon.push(LOp::Execute { id: 7, vals: vec![3] });
+        abandon.push(LOp::Close { id: 1000 });
+        vec![Case { ops }, Case { ops: abandon }]
     }
     fn exec(&self, case: &Case) -> Exec {
         let mut ex = Exec::default();
@@ -280,6 +316,10 @@ impl Prop for C10 {
             ex.class("re-prepare-live-id");
         }
         ex.class(if m.first_invalid.is_some() { "history-with-invalid-op" } else { "valid-history" });
+        let abandoned: usize = case.ops.iter().map(|o| if let LOp::LongPat { len, .. } = o { *len } else { 0 }).sum();
+        if abandoned > 64 << 20 {
+            ex.class(">64MiB-of-long-data-abandoned-on-the-connection");
+        }
         let conv = to_conv(&case.ops);
         let o = run_with(&conv, None, false);
         if let RunResult::Panic(p) = &o.result {
